@@ -612,6 +612,23 @@ def prim_eq(ex, st, fr, name, args, dty):
     return ok(st, VBool(e))
 
 
+@model(r'^<(std::option::|core::option::)?Option<.*> as (std::cmp::)?PartialEq>::(eq|ne)$')
+def option_eq(ex, st, fr, name, args, dty):
+    """Option == Option with definite, different variants is false (Some(_) vs None); everything else stays uninterpreted"""
+    vs = []
+    for a in args:
+        while isinstance(a, VRef):
+            a = ex.load(st, a.cell, a.path)
+        vs.append(a)
+    a, b = vs
+    if isinstance(a, VAgg) and isinstance(b, VAgg) and a.variant in ('Some', 'None') and b.variant in ('Some', 'None'):
+        if a.variant != b.variant:
+            return ok(st, VBool(name.strip().endswith('::ne')))
+        if a.variant == 'None':
+            return ok(st, VBool(not name.strip().endswith('::ne')))
+    return None
+
+
 @model(r' as (num_traits::)?FromPrimitive>::from_(u8|u16|u32|i8|i16|i32|usize|isize)$')
 def from_primitive_default(ex, st, fr, name, args, dty):
     """num_traits default methods: from_uN(n) = from_u64(n as u64), from_iN(n) = from_i64(n as i64)"""
